@@ -2,6 +2,7 @@ package c08
 
 import (
 	"crypto/ecdsa"
+	"crypto/elliptic"
 	"fmt"
 	"math/big"
 
@@ -16,7 +17,8 @@ import (
 type cand struct {
 	name  string
 	X, Y  *big.Int
-	valid bool // decided by the reference: coordinates in [0,p-1] and on the curve (not infinity)
+	valid bool           // decided by the reference: coordinates in [0,p-1] and on the curve (not infinity)
+	curve elliptic.Curve // the Curve object the candidate is labelled with (nil: the SM2 curve)
 }
 
 func mk(name string, x, y *big.Int) cand {
@@ -100,7 +102,11 @@ type kxEnv struct {
 }
 
 func (e *kxEnv) pub(cd cand) *ecdsa.PublicKey {
-	return &ecdsa.PublicKey{Curve: sm2.P256(), X: new(big.Int).Set(cd.X), Y: new(big.Int).Set(cd.Y)}
+	var cv elliptic.Curve = sm2.P256()
+	if cd.curve != nil {
+		cv = cd.curve
+	}
+	return &ecdsa.PublicKey{Curve: cv, X: new(big.Int).Set(cd.X), Y: new(big.Int).Set(cd.Y)}
 }
 
 // judge records the verdict of one entry point on one candidate against the
@@ -355,6 +361,36 @@ func peers(x *mon.Ctx) {
 			probeBytes(c, be)
 		}
 		c.End()
+	}
+
+	// ---- keys of other curves, labelled with their own Curve object (what a caller gets from a
+	// peer certificate that carries a NIST key): valid there, not points of the SM2 curve, so they
+	// must be refused as static key (the curve's own IsOnCurve would say yes), as RA and as RB
+	for _, fc := range []struct {
+		name string
+		cv   elliptic.Curve
+	}{{"P-256", elliptic.P256()}, {"P-224", elliptic.P224()}, {"P-384", elliptic.P384()}, {"P-521", elliptic.P521()}} {
+		for rep := 0; rep < 3; rep++ {
+			c := x.Begin("peer key of the foreign curve %s #%d, labelled with that curve", fc.name, rep)
+			if c == nil {
+				continue
+			}
+			k := []byte{1}
+			if rep > 0 {
+				k = c.R.Bytes(1 + c.R.Intn(28))
+			}
+			fx, fy := fc.cv.ScalarBaseMult(k)
+			cd := mk(fmt.Sprintf("[%x]G of %s with Curve=%s", k, fc.name, fc.name), fx, fy)
+			cd.curve = fc.cv
+			if cd.valid || !fc.cv.IsOnCurve(fx, fy) {
+				x.HarnessError("c08: foreign point of %s unusable (on SM2 curve: %v)", fc.name, cd.valid)
+			}
+			c.Detail("candidate", fmt.Sprintf("%s X=%x Y=%x", cd.name, cd.X, cd.Y))
+			c.Class("foreign-curve/%s/%d", fc.name, rep)
+			c.Event("foreign_curve_keys", 1)
+			probeBig(c, env(c), cd)
+			c.End()
+		}
 	}
 
 	// ---- candidates derived from valid points: edge multiples and random points
